@@ -431,9 +431,10 @@ def tokenize_expression(s: str):
 _RAW_PARSER = None
 
 
-def expression_cases(text: str):
+def expression_cases(text: str, with_spans: bool = False):
     """[(where, expression text, tokens, expression the grammar assigns - as tree_to_sx reads Lark's tree)] for every
-    right-hand side and declared value of a text that Lark accepts; [] if it does not parse"""
+    right-hand side and declared value of a text that Lark accepts; [] if it does not parse; with_spans: the character
+    span of the expression in the text is appended to each tuple"""
     import lark
 
     global _RAW_PARSER
@@ -457,7 +458,7 @@ def expression_cases(text: str):
                 want = None
             toks = tokenize_expression(src)
             if toks is not None:
-                out.append((str(t.children[0]), src, toks, want))
+                out.append((str(t.children[0]), src, toks, want) + ((e.meta.start_pos, e.meta.end_pos) if with_spans else ()))
             return
         for c in t.children:
             walk(c)
